@@ -85,6 +85,7 @@ type cursor struct {
 }
 
 type catchup struct {
+	stray bool // not a loop of the current election: a retry left over from an older one
 	f     int
 	term  int64
 	alive bool
@@ -146,6 +147,7 @@ type cluster struct {
 	getStatusBad       bool
 	lastStatus         map[int]*proto.GetStatusResponse
 	retryElections     int
+	scripted            bool // the trace follows a scripted schedule
 	captureFlush        bool // real WAL syncs, flush images and parks (power loss)
 	pendLose, pendCrash bool // flags of the BecomeLeader call about to start
 	swapFrom, swapTo    int
@@ -334,7 +336,7 @@ var violMu sync.Mutex
 
 // Root causes after which the cluster is outside the protocol's invariants: what the monitors report later in the
 // same trace is a consequence, not an independent finding (it is counted, not reported).
-var tainting = []string{"swap:", "newterm:", "truncate:", "acked-write-lost", "ack:", "commit:not-on-quorum", "election:", "wal:", "restart:", "panic:", "harness:"}
+var tainting = []string{"attach:", "swap:", "newterm:", "truncate:", "acked-write-lost", "ack:", "commit:not-on-quorum", "election:", "wal:", "restart:", "panic:", "harness:"}
 
 func (c *cluster) violate(sig, detail string) {
 	violMu.Lock()
@@ -440,6 +442,9 @@ func (c *cluster) curStep() string { return c.cur }
 
 const shortWait = 4 * time.Second
 const timerWait = 8 * time.Second
+
+// strayWait: how long a schedule gives a left-over retry loop (1 s initial back-off, growing) to show up
+const strayWait = 3 * time.Second
 
 func mterm(t int64) int64 { return t + 1 }
 
